@@ -35,6 +35,9 @@ def main():
         sys.exit(11)
     if r is False or not r:
         why = getattr(mod, "LAST_FAILURE", None)
+        for name in ("harness.e2e",):
+            if not why and name in sys.modules:
+                why = getattr(sys.modules[name], "LAST_FAILURE", None)
         print("returned %r %s" % (r, why if why else ""))
         sys.exit(11)
     print("returned %r" % (r,))
